@@ -226,6 +226,17 @@ def circuit_from_gates(n, gates):
 
 
 def sign_step_job(args):
+    """wrapper: whatever goes wrong INSIDE the symbolic device (stubs, symbolic circuit algebra) withdraws the argument for this case; it is never a violation"""
+    try:
+        return _sign_step_job(args)
+    except Exception as e:
+        n, conn, rows, tag = args
+        labels = [P.to_label(n, (x, z, 0), False) for x, z in rows]
+        return [("C01.signstep.all_signs", None, f"sign:{n}:{conn}:{labels}", f"symbolic sign step not applicable to this code ({type(e).__name__}: {str(e)[:160]}); argument withdrawn",
+                 {"n": n, "connectivity": conn, "paulis": labels})]
+
+
+def _sign_step_job(args):
     """args = (n, conn, rows [(x,z)], tag).  One symbolic run for ALL 2^n sign vectors of this generator list."""
     n, conn, rows, tag = args
     from htstabilizer.stabilizer import Stabilizer
@@ -254,8 +265,10 @@ def sign_step_job(args):
     circ = circuit_from_gates(n, base)
     try:
         res = it.run(rot.rotate_stabilizer_into_state, [circ, st], {"inplace": True})
-    except S.Unsupported as e:
-        return [("C01.signstep.all_signs", None, f"sign:{key}", f"unsupported: {e}", rp)]
+    except Exception as e:
+        # Unsupported construct, or a use of qiskit that the contract stubs do not offer (TypeError / AttributeError inside a stub): the symbolic argument does not apply
+        return [("C01.signstep.all_signs", None, f"sign:{key}", f"the sign step cannot be run against the qiskit contract stubs ({type(e).__name__}: {str(e)[:160]}); "
+                 f"all-sign-vector argument withdrawn, the end-to-end families decide on concrete sign vectors", rp)]
     exc = X.Or(*[r.guard for r in it.raised])
     alts = res.alts if isinstance(res, SV) else [(True, res)]
     ok_goal = [X.Not(exc)]
